@@ -31,6 +31,7 @@ type (
 	EQuant  struct{ Forall bool; Var, Type string; Body Expr }
 	EResult struct{ N int }
 	ECond   struct{ C, A, B Expr }
+	EProj   struct{ X Expr; N int } // k-th component of a tuple-valued expression
 )
 
 func (e EIdent) exprString() string  { return e.Name }
@@ -57,6 +58,7 @@ func (e EQuant) exprString() string {
 	}
 	return q + " " + e.Var + " " + e.Type + " :: " + e.Body.exprString()
 }
+func (e EProj) exprString() string   { return fmt.Sprintf("%s.%d", e.X.exprString(), e.N) }
 func (e EResult) exprString() string { return fmt.Sprintf("result.%d", e.N) }
 func (e ECond) exprString() string {
 	return "ite(" + e.C.exprString() + ", " + e.A.exprString() + ", " + e.B.exprString() + ")"
@@ -336,7 +338,9 @@ func (p *exprParser) parsePostfix() (Expr, error) {
 					x = EResult{N: n}
 					continue
 				}
-				return nil, fmt.Errorf("numeric selector on non-result")
+				n, _ := strconv.Atoi(t.s)
+				x = EProj{x, n}
+				continue
 			}
 			if t.kind != "ident" {
 				return nil, fmt.Errorf("expected field name after '.'")
